@@ -228,6 +228,17 @@ def _chain(job):
 _chain.k = 0
 
 
+IMPL_CFG = """INIT Init
+NEXT Next
+CONSTANTS
+ N = %d
+ MaxFiles = %d
+ ComposeChild = %s
+INVARIANT BasinMapsCorrect
+CHECK_DEADLOCK FALSE
+"""
+
+
 def main(tier, seed, replay=None):
     import_dclab()
     ev = evidence.Evidence(PID, tier, seed)
@@ -246,6 +257,18 @@ def main(tier, seed, replay=None):
                ">= 2.")
     ev.assumptions = ["remote basin formats are not exercised (no endpoint)"]
     q = tier == "quick"
+    # design level: the basin list written by Export.hdf5 (transcribed)
+    impl = tlc.run("BasinImpl", IMPL_CFG % (3 if q else 4, 4, "TRUE"),
+                   timeout=3000)
+    ev.add_tlc("BasinImpl (maps of child exports composed) files<=4", impl)
+    if not impl.ok:
+        raise tlc.TLCError("BasinImpl (as repaired) violates %s\n%s" % (
+            impl.violated, impl.cex))
+    old = tlc.run("BasinImpl", IMPL_CFG % (3, 3, "FALSE"), timeout=600)
+    ev.extra["deviation_model_counterexample"] = old.violated
+    if old.ok:
+        raise tlc.TLCError("BasinImpl with the pinned child export no "
+                           "longer yields a counterexample")
     res = tlc.run("MC_Basin", CFG.format(m=3 if q else 4), workers=8,
                   timeout=3000)
     if not res.ok:
